@@ -7,7 +7,10 @@ the implementation and decides, with a reference *fold* of the received notifica
 * `on_update` / `on_remove` / `on_clear` (`on_event` / `on_set`) fire in notification order with the true
   old / new values and the true map, exactly when the link is synced or `events_when_not_synced` is set;
 * local writes cause no callbacks and do not change what later callbacks show;
-* after `unlinked` with `terminate_on_unlinked` the task ends; otherwise a relink starts from the empty map.
+* after `unlinked` with `terminate_on_unlinked` the task ends; otherwise a relink starts from the empty map;
+* dropping the write handle (`drop-handle`) or closing the task's output (`close-out`) is not a notification: it causes
+  no output and changes nothing of the above for the notifications that follow (the reference does not even record it,
+  except that later local-write ops are no longer applied to the F6 fold); `stop` (hosted) = `on_unlinked` if linked, end.
 
 Both implementations are judged against the same reference, so "client = hosted" on legal sequences is implied.
 The reference knows nothing of the implementation's state machine. For sequences outside the grammar
@@ -63,6 +66,8 @@ structure Mon where
   r : AMap := []
   r6 : AMap := []
   v : Option Int := none
+  /-- the write handle was dropped: later local-write ops cannot happen any more -/
+  dropped : Bool := false
   deriving Repr
 
 def renderCbs (cbs : List Cb) (fin : Option Fin) : String := renderOut cbs fin
@@ -115,7 +120,7 @@ def Mon.stepMap (mon : Mon) (op : MOp) (observed : String) : Mon × Option Strin
         ({ mon with phase := .U }, if observed == "on_unlinked" then none else some "on_unlinked-expected")
     else ({ mon with illegal := true }, none)
   | .write w =>
-    ({ mon with r6 := if mon.phase = .L || mon.phase = .S then applyW mon.r6 w else mon.r6 },
+    ({ mon with r6 := if (mon.phase = .L || mon.phase = .S) && !mon.dropped then applyW mon.r6 w else mon.r6 },
       if observed == "-" then none else some "local-write-caused-output")
   | .bad => (mon.endPhase, none)
   | .eof => (mon.endPhase, none)
@@ -174,6 +179,18 @@ def Mon.step (mon : Mon) (line : String) (observed : String) : Mon × Option Str
     else if mon.phase = .E then
       (mon, if observed == "gone" then none else some "output-after-termination")
     else if observed == "gone" then (mon, some "finished-without-cause")
+    else if ws = ["drop-handle"] then
+      -- dropping the write handle is not a notification: no callback, no termination, and nothing later changes
+      ({ mon with dropped := true }, if observed == "-" then none else some "drop-handle-caused-output")
+    else if ws = ["close-out"] then
+      (mon, if observed == "-" then none else some "close-out-caused-output")
+    else if ws = ["stop"] then
+      -- `handle.stop()` (hosted): the link is closed from this side — `on_unlinked` if linked, and the channel ends
+      -- (nothing if the handle was dropped before: there is nothing to call it on)
+      if mon.dropped then (mon, if observed == "-" then none else some "stop-without-handle-caused-output")
+      else if mon.phase = .L || mon.phase = .S then
+        (mon.endPhase, if observed == "on_unlinked | end ok" then none else some "on_unlinked-and-termination-expected")
+      else (mon.endPhase, if observed == "end ok" then none else some "termination-expected")
     else if mon.isMap then
       match parseMOp ws with
       | some op => mon.stepMap op observed
